@@ -84,6 +84,16 @@ def sync (p : P) (st : St) (c : Chain) (m upTo : Nat) : St :=
   if upTo < a then st1
   else { pos := some (upTo, (c upTo).hash), rows := syncN c st1.rows a (upTo + 1 - a) }
 
+/-- how a `Sync` call ends: the reset transaction itself failed (nothing changed), or the call got as far as
+    `upTo` (`sync`; `upTo` below the resume point: the reset, if any, is all that was stored) -/
+inductive Ending where
+  | resetFailed
+  | reached (upTo : Nat)
+
+def syncEnding (p : P) (st : St) (c : Chain) (m : Nat) : Ending → St
+  | .resetFailed => st
+  | .reached upTo => sync p st c m upTo
+
 /-- what a keyper that has synced chain `c` from the first block up to `n` holds -/
 def expected (p : P) (c : Chain) (n : Nat) : List Row := syncN c [] p.first (n + 1 - p.first)
 
